@@ -216,13 +216,17 @@ func check(sc scenario, r *result, meta *hx.Meta) {
 			closes++
 		}
 	}
+	// the active event travels from the head over the handlers that handle it, as long as each forwards it:
+	// every handler on that chain sees it exactly once - also when a Close lands while it is under way
 	for i, h := range sc.Tbl {
 		if h.Caps>>uint(probe.KActive)&1 == 1 {
-			// the first handler (from the head) that handles active events must see exactly one, always
 			if activeVisits[i+1] != 1 {
-				v("C05", "active-once", fmt.Sprintf("the first active-capable handler (position %d) saw the active event %d times", i+1, activeVisits[i+1]))
+				v("C05", "active-once", fmt.Sprintf("the active-capable handler at position %d lies on the forwarding chain from the head but saw the active event %d times", i+1, activeVisits[i+1]))
 			}
-			break
+			b := h.Beh[probe.KActive].B
+			if !(b == probe.BForward || b == probe.BTriggerOn || b == probe.BCloseFwd) {
+				break
+			}
 		}
 	}
 	for pos, n := range activeVisits {
@@ -333,6 +337,9 @@ func genScenario(rng *hx.Rng, meta *hx.Meta, prop string) scenario {
 				choices = []int{probe.BForward, probe.BForward, probe.BStop, probe.BPanic}
 			default:
 				choices = []int{probe.BForward, probe.BForward, probe.BStop, probe.BWriteBack, probe.BTriggerOn, probe.BClose, probe.BPanic, probe.BPanic}
+				if k == probe.KActive {
+					choices = append(choices, probe.BCloseFwd, probe.BCloseFwd) // Close lands while the active event is still travelling
+				}
 			}
 			b := probe.Beh{B: choices[rng.Intn(len(choices))], ID: i*10 + k}
 			if b.B == probe.BPanic {
